@@ -8,7 +8,7 @@ import numpy as np
 
 from mc.engine import hbfs, par
 from mc.engine.report import Violation
-from mc.engine.seams import Canon
+from mc.engine.seams import Canon, new_model
 
 import ECAgent.Core as Core
 import ECAgent.Environments as Envs
@@ -82,10 +82,10 @@ class Harness:
 
     def fresh(self):
         w = World()
-        w.model = Core.Model(seed=1)
+        w.model = new_model(seed=1)
         w.world = mk(w.model, self.wkind, self.dims)
         # a bystander world of the same shape, alive at the same time, with a component of its own
-        w.other = mk(Core.Model(seed=2), self.wkind, self.dims)
+        w.other = mk(new_model(seed=2), self.wkind, self.dims)
         w.other.add_cell_component('keep', Envs.ConstantGenerator(42))
         w.other_snap = self.cn(w.other.cells)
         self._shared_gen = None
@@ -270,7 +270,7 @@ def big_world_case(case):
     from mc.engine.seams import reset_library
     reset_library()
     wkind, dims = case['kind'], case['dims']
-    world = mk(Core.Model(seed=1), wkind, dims)
+    world = mk(new_model(seed=1), wkind, dims)
     table = [tuple(int(v) for v in p) for p in world.cells['pos']]      # plain ints for the reference
 
     def key(pos, cells):
